@@ -222,19 +222,23 @@ theorem pairing_distance_one (cfg : Cfg) (minus plus : List Line) (nd ni : List 
     (∀ i, i < min minus.length plus.length → (some i, some i) ∈ r.alignment) :=
   inferEdits_acc (acceptsAll_of_threshold_ge_one cfg _ hq hp) r h
 
-/-- With both thresholds 0, paired lines differ in nothing that has width after trimming: every
-emphasised section of a paired line has trimmed display width 0. (Plus side: assuming tokens
-with equal text have the same whitespace class. Zero-width non-whitespace characters are not
-excluded by this: see notes/C06.md.) -/
+/-- With both thresholds 0, every emphasised section of a paired line contributes 0 to the
+distance; with the repaired `distance_contribution` (generated flag `nonBlankCountsAtLeastOne`)
+that means it is *blank after trimming* — the lines differ in nothing but whitespace — and with
+the old form only that its trimmed display width is 0. (Plus side: assuming tokens with equal
+text have the same whitespace class, because the whitespace test of the coalescing rule looks at
+the minus section only.) -/
 theorem pairing_distance_zero (cfg : Cfg) (minus plus : List Line) (nd ni : List Tag) (r : Inferred)
     (hmax : cfg.maxNum = 0) (hnaive : cfg.naiveNum = 0) (hq : 0 < cfg.maxDen) (hq' : 0 < cfg.naiveDen)
     (hnd : ∀ tag ∈ nd, tag ≠ cfg.del) (hni : ∀ tag ∈ ni, tag ≠ cfg.ins)
     (h : inferEdits cfg minus plus nd ni = .ok r) (i j : Nat) (hij : (some i, some j) ∈ r.alignment) :
     ∃ secsM secsP, r.minus[i]? = some secsM ∧ r.plus[j]? = some secsP ∧
-      (∀ s ∈ secsM, s.tag = cfg.del → distanceContribution s.gs = 0) ∧
+      (∀ s ∈ secsM, s.tag = cfg.del → distanceContribution s.gs = 0 ∧
+          (nonBlankCountsAtLeastOne = true → trim s.gs = [])) ∧
       ((∀ x y ml pl, minus[i]? = some ml → plus[j]? = some pl → tokenize ml.gs ml.spans = .ok x →
           tokenize pl.gs pl.spans = .ok y → WsCons x y) →
-        ∀ s ∈ secsP, s.tag = cfg.ins → distanceContribution s.gs = 0) := by
+        ∀ s ∈ secsP, s.tag = cfg.ins → distanceContribution s.gs = 0 ∧
+          (nonBlankCountsAtLeastOne = true → trim s.gs = [])) := by
   obtain ⟨ml, pl, tnd, tni, a, h1, h2, h3, h4, h5, h6, h7, h8⟩ :=
     paired_is_annotate cfg minus plus nd ni r h i j hij
   have hnum : a.numer = 0 := by
@@ -253,19 +257,27 @@ theorem pairing_distance_zero (cfg : Cfg) (minus plus : List Line) (nd ni : List
   rw [h5] at ha'; injection ha' with ha'; subst ha'
   refine ⟨a.minus, a.plus, h6, h7, ?_, ?_⟩
   · intro s hs htag
-    have := spec.emph_minus (hnd tnd (List.mem_of_getElem? h3)) s hs htag
-    omega
+    have h0 : distanceContribution s.gs = 0 := by
+      have := spec.emph_minus (hnd tnd (List.mem_of_getElem? h3)) s hs htag
+      omega
+    exact ⟨h0, fun hf => contribution_zero_blank _ hf h0⟩
   · intro hw s hs htag
-    have := spec.emph_plus (hni tni h4) (hw x y ml pl h1 h2 hx hy) s hs htag
-    omega
+    have h0 : distanceContribution s.gs = 0 := by
+      have := spec.emph_plus (hni tni h4) (hw x y ml pl h1 h2 hx hy) s hs htag
+      omega
+    exact ⟨h0, fun hf => contribution_zero_blank _ hf h0⟩
 
-private def lineA_B : Line := ⟨[gA, gS, gB], [(0, 1), (2, 3)]⟩
-private def lineA_A_B : Line := ⟨[gA, gS, gA, gS, gB], [(0, 1), (2, 3), (4, 5)]⟩
-example : (tokenize lineA_B.gs lineA_B.spans).map tokTexts = .ok ([] :: ([['a'], [' ']] ++ [['b']])) := by rfl
-example : (tokenize lineA_A_B.gs lineA_A_B.spans).map tokTexts =
-    .ok ([] :: ([['a'], [' ']] ++ (['a'] :: [[' ']]) ++ [['b']])) := by rfl
-example : (annotatePair ⟨0, 1, 2, 3⟩ lineA_B lineA_A_B).map (fun a => (emphCount 3 a.plus, emphText 3 a.plus)) =
-    .ok (1, ['a', ' ']) := by rfl
+/-- The source as it is now has the repaired form, so at threshold 0 the emphasised sections of the
+removed line of a pair are blank after trimming: paired lines differ in nothing but whitespace.
+(This theorem stops checking if the repair is reverted; `pairing_distance_zero` covers both forms.) -/
+theorem pairing_distance_zero_blank (cfg : Cfg) (minus plus : List Line) (nd ni : List Tag) (r : Inferred)
+    (hmax : cfg.maxNum = 0) (hnaive : cfg.naiveNum = 0) (hq : 0 < cfg.maxDen) (hq' : 0 < cfg.naiveDen)
+    (hnd : ∀ tag ∈ nd, tag ≠ cfg.del) (hni : ∀ tag ∈ ni, tag ≠ cfg.ins)
+    (h : inferEdits cfg minus plus nd ni = .ok r) (i j : Nat) (hij : (some i, some j) ∈ r.alignment) :
+    ∃ secsM, r.minus[i]? = some secsM ∧ ∀ s ∈ secsM, s.tag = cfg.del → trim s.gs = [] := by
+  obtain ⟨secsM, _, hm, _, h1, _⟩ :=
+    pairing_distance_zero cfg minus plus nd ni r hmax hnaive hq hq' hnd hni h i j hij
+  exact ⟨secsM, hm, fun s hs htag => (h1 s hs htag).2 (by decide)⟩
 
 /-- threshold 0.6, naive threshold 0; deletion tag 1, insertion tag 3 -/
 private def cfg6 : Cfg := ⟨1, 3, 6, 10, 0, 1⟩
@@ -291,6 +303,9 @@ example : (inferEdits cfg10 [lineAB, lineB] [lineB, lineAA, lineAB] [0, 0] [2, 2
 -- threshold 0: a whitespace-only difference is paired, a real difference is not (`pairing_distance_zero`)
 example : (inferEdits cfg0 [lineAB] [lineA__B] [0] [2]).map (·.alignment) = .ok [(some 0, some 0)] := by rfl
 example : (inferEdits cfg0 [lineAB] [lineAA] [0] [2]).map (·.alignment) = .ok [(some 0, none), (none, some 0)] := by rfl
+-- threshold 0: a zero-width non-blank difference (U+200B, width 0) is not paired any more
+example : (inferEdits cfg0 [lineAB] [⟨[gA, gS, ⟨['\u200b'], 0, false⟩, gB], [(0, 1), (3, 4)]⟩] [0] [2]).map (·.alignment)
+    = .ok [(some 0, none), (none, some 0)] := by rfl
 -- identical lines: no emphasis (`identical_no_emph`)
 example : (annotatePair ⟨0, 1, 2, 3⟩ lineAB lineAB).map (fun a => (a.minus.map (·.tag), a.plus.map (·.tag)))
     = .ok ([0], [2]) := by rfl
